@@ -218,6 +218,8 @@ def eval_C15(case):
             # a single-segment link hands the node values over as scalars
             if case.get("n1_scalar") and k in ("v_up", "rho_down", "q_up") and len(x) == 1:
                 return np.float64(x[0])
+            if case.get("int_vec") and len(x) and all(float(y).is_integer() for y in x):
+                return np.array([int(y) for y in x])  # whole-number values typed as the user wrote them: an integer array
             return np.array(x, float)
         return _np_scalar(x, shape)
 
@@ -252,7 +254,16 @@ def check_C15(rng, budget):
             for prim in prims:
                 a = rand_primitive_case(rng, prim, boundary=bool(i % 2))
                 n1 = prim in ("step_speed", "step_density") and len(a["rho"]) == 1 and rng.random() < 0.5
-                yield dict(prim=prim, args=a, shape=shapes[(i + len(prim)) % 4], n1_scalar=bool(n1), tag=prim)
+                int_vec = False
+                if (i // 2) % 4 == 3:
+                    # whole-number vectors handed over as integer arrays (np.asarray([10, 20, 40])), the rest float
+                    int_vec = True
+                    for k, v in list(a.items()):
+                        if isinstance(v, list) and k not in ("vsl",) and v and all(isinstance(y, float) for y in v) and rng.random() < 0.6:
+                            a[k] = [max(1.0, float(round(y))) for y in v]
+                        elif k == "arrays":
+                            a[k] = [[max(1.0, float(round(y))) for y in w] if isinstance(w, list) and (j == 0 or rng.random() < 0.3) else w for j, w in enumerate(v)]
+                yield dict(prim=prim, args=a, shape=shapes[(i + len(prim)) % 4], n1_scalar=bool(n1), int_vec=int_vec, tag=prim)
     return run_cases("each of the 14 engine primitives + max + vcat, NumPy (ndarray arguments of shape (N,), (1,), 0-d, numpy/python "
                      "scalars as the element layer produces them) vs CasADi (DM) vs specs/metanet.py; interior and boundary "
                      "arguments (zeros, rho_max, rho_crit, V_crit, tiny speeds, lane gain/drop, merging on/off); results finite",
